@@ -210,7 +210,7 @@ def lib_mean(mspec):
     return {"C": ConstantMean, "L": LinearMean, "Q": QuadraticMean}[mspec]()
 
 
-def param_classes(kspec, mspec, d, prefix=""):
+def param_classes(kspec, mspec, d):
     """a class label for every hyper-parameter (used in failure keys)"""
     from mc.ref import gpref_b as G
 
@@ -411,7 +411,6 @@ def ev_scores(case):
                         fails.append(fail("lml/%s/gradient" % pcls[j], "d LML / d theta[%d] = %r, true %r (tol %.3g)" % (j, g2[j], gl, t1), observed=float(g2[j]), expected=gl, index=j, tol=t1, **ctx))
                     if upd("loo_gradient", abs(gl2[j] - go), t2) > 1 or not np.isfinite(gl2[j]):
                         fails.append(fail("loo/%s/gradient" % pcls[j], "d LOO / d theta[%d] = %r, true %r (tol %.3g)" % (j, gl2[j], go, t2), observed=float(gl2[j]), expected=go, index=j, tol=t2, **ctx))
-            nev += 0
         if not np.array_equal(th, np.array(theta, dtype=float)):
             fails.append(fail("scores/theta-modified", "hyper-parameter vector changed by the call", **ctx))
         sample = {"config": cfg, "theta": list(theta), "lml": v1, "lml_ref": lml_ref, "loo": l1, "loo_ref": loo_ref, "cond": P.cond}
@@ -510,9 +509,10 @@ def ev_select(case):
     starts = case["n_starts"] if case["n_starts"] is not None else int(2 * math.sqrt(p)) + 1
     nrand = starts - 1
     placements = list(itertools.product(ALPHABET, repeat=p))
-    prefix = case["prefix"]
+    prefix = case.get("prefix", [])
     crit = "loo" if case["cross_val"] else "lml"
     cfg = "k=%s,m=%s,d=%d,n=%d,noise=%s,crit=%s,starts=%s" % (kname(case["kernel"]), case["mean"], d, des["n"], des["noise"], crit, "default" if case["n_starts"] is None else case["n_starts"])
+    cfg += ",bounds=%s" % ("user" if case.get("user_bounds") else "estimated")
     if case.get("tuples") is not None:
         tuples = [tuple(t) for t in case["tuples"]]
     else:
